@@ -207,6 +207,33 @@ func runC07(seed int64, n int, tier string, outDir string) (*Report, error) {
 			top, _ := ap.UnmarshalJSON([]byte(doc))
 			cell("json-top", top, top != nil && payload(top))
 			outer, _ := ap.UnmarshalJSON([]byte(`{"id":"https://example.com/outer","type":"Note","attributedTo":` + doc + `,"tag":[` + doc + `,"https://example.com/t"]}`))
+			// the same list with members of names outside the vocabulary in front: they yield nothing (hooks unset) and must
+			// not take the members behind them along
+			if known {
+				behind, _ := ap.UnmarshalJSON([]byte(`{"id":"https://example.com/outer2","type":"Note","tag":[{"type":"Emoji","id":"https://example.com/e","name":":e:"},{"type":"PropertyValue","name":"k"},` + doc + `,"https://example.com/t"],"attachment":[{"type":"Bogus"},` + doc + `]}`))
+				var lastTag, lastAtt ap.Item
+				_ = ap.OnObject(behind, func(o *ap.Object) error {
+					for _, m := range o.Tag {
+						if !ap.IsIRI(m) && string(m.GetLink()) == id {
+							lastTag = m
+						}
+					}
+					_ = ap.OnItemCollection(o.Attachment, func(c *ap.ItemCollection) error {
+						for _, m := range *c {
+							if string(m.GetLink()) == id {
+								lastAtt = m
+							}
+						}
+						return nil
+					})
+					if lastAtt == nil && !ap.IsNil(o.Attachment) && !ap.IsItemCollection(o.Attachment) && string(o.Attachment.GetLink()) == id {
+						lastAtt = o.Attachment
+					}
+					return nil
+				})
+				cell("json-list-behind-unknown", lastTag, lastTag != nil && payload(lastTag))
+				cell("json-item-list-behind-unknown", lastAtt, lastAtt != nil && payload(lastAtt))
+			}
 			var inItem, inList ap.Item
 			_ = ap.OnObject(outer, func(o *ap.Object) error {
 				inItem = o.AttributedTo
